@@ -151,6 +151,65 @@ func universeRequests(rng *rand.Rand, s Sem, big bool) []reqSpec {
 	return out
 }
 
+// emptyElementProbes: preflights whose Access-Control-Request-Headers lists name a STRICT SUBSET of the allowed names (in browser form:
+// lower case, sorted) padded with empty list elements - up to the 16 the library tolerates - at the end, at the start, between the
+// names and on lines of their own, so that every total element count from the number of names up to the size of the allow-list (and
+// beyond) occurs. Whatever is counted, compared or memoised per ELEMENT instead of per name shows here; with debug off the
+// response may name nothing but what the request named (C16), and the list is approved (C14).
+func emptyElementProbes(rng *rand.Rand, s Sem) []reqSpec {
+	if len(s.HNames) < 2 {
+		return nil
+	}
+	a := allowedOrigin(rng, s).String()
+	meth := "GET"
+	if len(s.Meths) > 0 {
+		meth = s.Meths[0]
+	}
+	hs := sortedCopy(s.HNames)
+	for i := range hs {
+		hs[i] = strings.ToLower(hs[i])
+	}
+	sort.Strings(hs)
+	pf := func(lines ...string) reqSpec {
+		return reqSpec{Method: "OPTIONS", H: http.Header{hOrigin: {a}, hACRM: {meth}, hACRH: lines}}
+	}
+	var out []reqSpec
+	n := len(hs)
+	for k := 1; k <= 2 && k < n; k++ {
+		names := strings.Join(hs[n-k:], ",") // the LAST names of the sorted list, so that the subset is not a prefix of it
+		for pad := 1; pad <= 16; pad++ {
+			out = append(out, pf(names+strings.Repeat(",", pad)))
+		}
+		if d := n - k; d >= 1 && d <= 16 {
+			out = append(out, pf(strings.Repeat(",", d)+names), pf(names, strings.Repeat(",", d-1)), pf(strings.Repeat(",", d-1), names))
+			if k == 2 {
+				out = append(out, pf(hs[n-2]+strings.Repeat(",", d+1)+hs[n-1]))
+			}
+		}
+	}
+	return out
+}
+
+// methodProbes: request methods that are NOT `OPTIONS` byte for byte but become it under some normalisation (net/http hands mixed-case
+// and unknown methods to handlers as they are), near-misses of it, and the other standard methods in both cases - each with the header
+// shapes of a preflight, of an actual request and of a non-CORS request. Only the exact method OPTIONS with Origin and
+// Access-Control-Request-Method is a preflight; everything else belongs to the wrapped handler.
+func methodProbes(rng *rand.Rand, s Sem) []reqSpec {
+	a := allowedOrigin(rng, s).String()
+	other := "https://not-allowed.example.org"
+	var out []reqSpec
+	for _, m := range []string{"options", "Options", "oPTIONS", "OPTIONs", "OPTION", "OPTIONSS", "get", "Get", "HEAD", "head", "CONNECT", "TRACE",
+		"PATCH", "patch", "QUERY", "Put"} {
+		out = append(out,
+			reqSpec{Method: m, H: http.Header{hOrigin: {a}, hACRM: {"PUT"}}},
+			reqSpec{Method: m, H: http.Header{hOrigin: {a}, hACRM: {"GET"}, hACRH: {"x-a"}}},
+			reqSpec{Method: m, H: http.Header{hOrigin: {other}, hACRM: {"GET"}}},
+			reqSpec{Method: m, H: http.Header{hOrigin: {a}}},
+			reqSpec{Method: m, H: http.Header{hACRM: {"PUT"}}})
+	}
+	return out
+}
+
 // crossProbes: for every two listed patterns that share a host (or wildcard base), the origins that COMBINE them - the scheme of
 // one with the port of the other - and, for every pattern, its neighbours in each dimension (other scheme, other port, no
 // port, parent and child host). None of these is allowed unless some pattern really denotes it: TLC decides.
@@ -313,6 +372,8 @@ func historyProbes(rng *rand.Rand, s Sem) []reqSpec {
 		pf(a, first), pf(a, first, "x-zzz-not-allowed"), pf(a, first, first), pf(a, all), pf(a, all, "x-zzz-not-allowed"), pf(a, first, ""),
 		pf(a, "x-zzz-not-allowed"), pf(a, first),
 		get(a), get(other), pf(a), pf(other), get(a), pf(other, first), get(other), get(a),
+		// what the handlers write in place over origin-valued fields (afterCommit), offered right after a request from an allowed origin
+		get(editedOrigin), get(a), pf(editedOrigin), get(a), get(a), get(editedOrigin),
 	}...)
 }
 
@@ -1061,6 +1122,9 @@ func cmdServe(args []string) {
 		reqs = append(reqs, crossProbes(rng, s)...)
 		reqs = append(reqs, shapeProbes(rng, s)...)
 		reqs = append(reqs, historyProbes(rng, s)...)
+		// (a generator of its own: what the probes above draw from `rng` stays as it was)
+		reqs = append(reqs, emptyElementProbes(rand.New(rand.NewSource(int64(processed)*104729+int64(ci))), s)...)
+		reqs = append(reqs, methodProbes(rand.New(rand.NewSource(int64(processed)*7919+int64(ci))), s)...)
 		own := reqs
 		carryN := 0
 		if len(prevReqs) > 0 && !s.Pass {
